@@ -534,6 +534,32 @@ func (c16) Gen(seed int64, tier string, emit func(any)) {
 		}
 	}
 
+	// 1b. jsonl tables whose heading row carries the names "-1", "-2", "x": a negative
+	//     "index" is a column name for the table indexer
+	for n := 0; n <= 6; n++ {
+		tbl := c16Val{Kind: "arr", L: []c16Val{}}
+		for i := 0; i < n; i++ {
+			var row c16Val
+			switch {
+			case i == 0:
+				row = c16Val{Kind: "arr", L: []c16Val{{Kind: "str", S: "-1"}, {Kind: "str", S: "-2"}, {Kind: "str", S: "x"}, {Kind: "str", S: "-1"}}}
+			case i == 3:
+				row = c16Val{Kind: "arr", L: []c16Val{{Kind: "num", Z: 30}, {Kind: "bool", B: true}}} // short row
+			case i == 4:
+				row = c16Val{Kind: "arr", L: []c16Val{{Kind: "str", S: ""}}} // blank row
+			default:
+				row = c16Val{Kind: "arr", L: []c16Val{{Kind: "num", Z: int64(10 * i)}, {Kind: "str", S: fmt.Sprintf("b%d", i)}, {Kind: "null"}, {Kind: "num", Z: int64(-i)}}}
+			}
+			tbl.L = append(tbl.L, row)
+		}
+		for _, ps := range [][]string{{"-1"}, {"-2"}, {"x"}, {"-3"}, {"zz"}, {"-1", "-2"}, {"x", "-1"}, {"-2", "zz"}, {"1", "-1"}, {"-" + strconv.Itoa(n)}} {
+			c16Emit(emit, "jsonl", "index", tbl, ps...)
+		}
+		for _, k := range []string{"-1", "-2", "x"} {
+			c16Emit(emit, "jsonl", "index", c16Rows(n, false), k) // struct shaped rows are not table rows
+		}
+	}
+
 	// 2. exhaustive multi-index on the boundary set, lengths 0..6
 	for n := 0; n <= 6; n++ {
 		bs := []int{-n - 1, -n, -1, 0, n - 1, n}
